@@ -7,6 +7,9 @@ import warnings
 
 warnings.filterwarnings("ignore")
 
+# must happen at import time of the main module: spawned dask workers re-import it
+from . import inject  # noqa: E402,F401
+
 
 def main(argv):
     if not argv:
